@@ -9,7 +9,7 @@ EXTRA = {'C12_A': ['C16', 'C02'], 'C02_A': ['C16', 'C15'], 'C02_B': ['C16', 'C15
          'C03_A': ['C03'], 'C03_B': ['C07', 'C03'], 'C09_A': ['C07', 'C09'], 'C09_B': ['C09'], 'C08_A': ['C06', 'C08'], 'C08_B': ['C08', 'C02'],
          'C05_C': ['C06'], 'C08_C': ['C02', 'C18'], 'C09_C': ['C01', 'C14'], 'C16_C': ['C02', 'C15'], 'C17_C': ['C16'], 'C02_C': ['C08', 'C18'], 'C14_C': ['C05', 'C01'], 'C01_C': ['C07', 'C12'], 'C13_C': ['C02', 'C16', 'C15'], 'C12_C': ['C01', 'C16'],
          'C19_C': [], 'C06_C': ['C10', 'C07'], 'C10_C': ['C06'], 'C03_C': ['C09'], 'C04_C': ['C06', 'C01'], 'C07_C': ['C05', 'C06'], 'C11_C': ['C14', 'C01'], 'C15_C': ['C02', 'C16', 'C14'], 'C18_C': ['C06'], 'C20_C': [],
-         'C13_D': ['C01'], 'C12_D': ['C02', 'C16'], 'C10_D': ['C06', 'C07'], 'C03_D': ['C07'], 'C02_E': ['C16', 'C13']}
+         'C13_D': ['C01'], 'C12_D': ['C02', 'C16'], 'C10_D': ['C06', 'C07'], 'C03_D': ['C07'], 'C02_E': ['C16', 'C13'], 'C08_D': ['C06']}
 have = set(c['property_id'] for c in json.load(open(os.path.join(V, 'MANIFEST.json')))['checks'])
 names = sys.argv[1:] or sorted(os.listdir(SEEDS))
 for name in names:
